@@ -8,6 +8,7 @@ package main
 import (
 	"encoding/json"
 	"fmt"
+	"html/template"
 	"os"
 	"sort"
 	"strings"
@@ -77,6 +78,14 @@ func buildAndRender(seed uint64, styles []string) []string {
 	rec(tjson.Wrap(t).Render())
 	rec(markdown.Wrap(t).Render())
 	rec(thtml.Wrap(t).Render())
+	// with a row-class generator of its own (and a caption), as applications use it
+	hw := thtml.Wrap(t)
+	hw.Caption = fmt.Sprintf("table %d", seed)
+	hw.SetRowClassGenerator(func(n int, ctx interface{}) template.HTMLAttr {
+		return template.HTMLAttr(fmt.Sprintf("g%v-r%d", ctx, n))
+	}, seed)
+	rec(hw.Render())
+	rec(hw.Render())
 	rec(texttable.Wrap(t).Render())
 	rec(texttable.Render(t))
 	for _, s := range styles {
